@@ -24,7 +24,7 @@ document element is refused by `read_event`, which keeps the nesting depth, sinc
 normalises the line ends of every text piece and CDATA section before references are resolved, since d365e05;
 attributes: `SerializeContent::attributes` / `start_of` / `attr_value` of `xml/ser.rs`, `Deserializer::attribute` of
 `xml/de.rs` over quick-xml's attribute iterator, since 680006e; `GetBucketLocationOutput` is read from exactly one
-`LocationConstraint` element, since d00ca17; comments: quick-xml's `check_comments`, since ce2599c; `]]>` in a text event, since fc97754; the target of a processing instruction, since 66c0f09).
+`LocationConstraint` element, since 7f2ce46; comments: quick-xml's `check_comments`, since 5bbd9e0; `]]>` in a text event, since 5946f21; the target of a processing instruction, since 61061ab).
 The lookahead state `peeked` / `next_slot` of `Deserializer` is the head of the remaining event list here:
 `peek_event` = look at the head, `consume_peeked` / `next_event` = drop it; `Empty` is expanded by `deEvents`.
 The field `start` of `Deserializer` (the start tag that was entered last, since 680006e) is read by generated code only
@@ -733,7 +733,7 @@ def decodeDoc (X : Ext) (root : DeRoot) (s : Sch) (evs : List Ev) : Except DeErr
   | .location tag =>
     -- hand-written (xml/mod.rs): `d.named_element("LocationConstraint", Deserializer::content)` at
     -- `BucketLocationConstraint` (a str-enum newtype: `String::deserialize_content`), then `locationVal` — the member
-    -- element is the document: exactly one (since d00ca17; until then a top-level `for_each_element` accepted no
+    -- element is the document: exactly one (since 7f2ce46; until then a top-level `for_each_element` accepted no
     -- element at all and an empty one followed by another: finding `xml-illformed-accepted:document-element`, fixed)
     match expectStart tag evs with
     | .error e => .error e
@@ -837,7 +837,7 @@ def markup (inp : Bytes) (stack : List Bytes) : Option (QEv × Bytes × List Byt
       | none => none
       | some (buf, rest) =>
         if startsWith [33, 45, 45] buf then
-          -- `Config::check_comments` (switched on by `Deserializer::new` since ce2599c): the text is `buf[3..len-2]`
+          -- `Config::check_comments` (switched on by `Deserializer::new` since 5bbd9e0): the text is `buf[3..len-2]`
           if dashDash ((buf.drop 3).dropLast.dropLast ++ [45]) then none   -- IllFormed(DoubleHyphenInComment)
           else some (.comment, rest, stack)
         else none
@@ -910,7 +910,7 @@ def isXmlName : Bytes → Bool
   | [] => false
   | c :: cs => isNameStartB c && cs.all fun b => isNameStartB b || b = 45 || b = 46 || (48 ≤ b.toNat && b.toNat ≤ 57)
 
-/-- the `Event::PI` arm of `read_event` (since 66c0f09) on the text between `<?` and `?>`: `x.target()` is its first
+/-- the `Event::PI` arm of `read_event` (since 61061ab) on the text between `<?` and `?>`: `x.target()` is its first
 word (`name_len`: up to the first white space); it must be a name and not `xml` in any case -/
 def piTargetOk (content : Bytes) : Bool :=
   isXmlName (nameOf content) && !((nameOf content).map toLowerAscii == [120, 109, 108])
@@ -926,8 +926,8 @@ saturating, `Empty` ±0). Outside the document element (`depth == 0`) character 
 (space, tab, CR, LF) and every CDATA section make `read_event` return `DeError::InvalidContent` (since d51737b;
 before, `expect_start` / `expect_eof` / `for_each_element` skipped them: finding F-xml-6, fixed). An error ends
 the run: every caller propagates it. A text event that holds `]]>` — which XML 1.0 allows only as the end of a CDATA
-section — and a processing instruction whose target is no name or is `xml` in any case (since 66c0f09; finding
-`xml-illformed-accepted:pi-target`, fixed) are refused with `DeError::InvalidContent` as well (since fc97754; before, it passed: finding
+section — and a processing instruction whose target is no name or is `xml` in any case (since 61061ab; finding
+`xml-illformed-accepted:pi-target`, fixed) are refused with `DeError::InvalidContent` as well (since 5946f21; before, it passed: finding
 `xml-illformed-accepted:cdata-end`, fixed). -/
 def deEventsAt : Nat → List QEv → List Ev
   | _, [] => []
@@ -936,7 +936,7 @@ def deEventsAt : Nat → List QEv → List Ev
   | d, .empty n r :: t => .start n r :: .stop n :: deEventsAt d t
   | d, .text raw :: t =>
     if d = 0 ∧ raw.all isWs = false then [.bad .invalidContent]
-    else if hasCdataEnd raw then [.bad .invalidContent]   -- `]]>` in character data (since fc97754)
+    else if hasCdataEnd raw then [.bad .invalidContent]   -- `]]>` in character data (since 5946f21)
     else .text raw :: deEventsAt d t
   | d, .cdata c :: t => if d = 0 then [.bad .invalidContent] else .cdata c :: deEventsAt d t
   | _, .err :: _ => [.bad .invalidXml]
